@@ -219,6 +219,28 @@ theorem rc_nonzero_iff (st : Settings) (a : Args) (fl : Flags) (builds : List Bu
       · simp [hrc]
       · simp [hrc]
 
+/-- `ExitStatus::code()` → verdict: only the exit code `0` counts as success; a ninja killed by a signal (no exit code) and every
+    non-zero code are failures -/
+theorem ninjaVerdict_zero_iff (c : Option Int) : ninjaVerdict c = 0 ↔ c = some 0 := by
+  cases c with
+  | none => simp [ninjaVerdict]
+  | some v =>
+    by_cases h : v = 0
+    · subst h; simp [ninjaVerdict]
+    · have hn : v.natAbs ≠ 0 := by omega
+      simp [ninjaVerdict, h, hn]
+
+/-- **C18.9c'** a plain `laze build` that started ninja exits non-zero whenever ninja did not exit with code 0 — including when
+    it was killed by a signal -/
+theorem rc_nonzero_of_killed_or_failed {st : Settings} {a : Args} {fl : Flags} {builds : List BuildInfo} (code : Option Int)
+    {cmdFails : String → Bool} {argv : List String}
+    (h : Spawn.ninja argv ∈ (runBuild st a fl builds none (ninjaVerdict code) cmdFails).1) :
+    (runBuild st a fl builds none (ninjaVerdict code) cmdFails).2 ≠ 0 ↔ code ≠ some 0 := by
+  rw [rc_nonzero_iff]
+  constructor
+  · intro h' hc; exact h'.2 ((ninjaVerdict_zero_iff code).2 hc)
+  · intro h'; exact ⟨⟨argv, h⟩, fun hz => h' ((ninjaVerdict_zero_iff code).1 hz)⟩
+
 /-- the requested form: with a ninja spawn, status ≠ 0 ↔ `ninjaRc ≠ 0` -/
 theorem rc_nonzero_iff' {st : Settings} {a : Args} {fl : Flags} {builds : List BuildInfo} {ninjaRc : Nat}
     {cmdFails : String → Bool} {argv : List String}
